@@ -134,6 +134,30 @@ func CPUTicks(pid int) (int64, bool) {
 	return ut + st, true
 }
 
+// PidsBusy returns a Busy function for Cmd: it reports true while any of the given processes (the servers a client is
+// waiting for) has used CPU since the previous call. A client that sits idle because its server is still working is
+// not hung; client and servers idle together are.
+func PidsBusy(pids ...int) func() bool {
+	var mu sync.Mutex
+	last := map[int]int64{}
+	return func() bool {
+		mu.Lock()
+		defer mu.Unlock()
+		busy := false
+		for _, p := range pids {
+			t, ok := CPUTicks(p)
+			if !ok {
+				continue
+			}
+			if prev, seen := last[p]; !seen || t-prev > 2 {
+				busy = true
+			}
+			last[p] = t
+		}
+		return busy
+	}
+}
+
 // AllThreadsSleeping reports whether every thread of pid is in state S.
 func AllThreadsSleeping(pid int) bool {
 	ents, err := os.ReadDir(fmt.Sprintf("/proc/%d/task", pid))
